@@ -232,7 +232,7 @@ Definition m_split (s : gostr) (args : list arg) : option res :=
               let pieces :=
                 if is_nil sep then explode s n
                 else map dec8 (splitn (S (length (enc8 s))) (enc8 s) (enc8 sep) n) in
-              let pieces := if 0 <? limit then firstn (Z.to_nat limit) pieces else pieces in
+              let pieces := if (0 <? limit) && (limit <? zlen pieces) then firstn (Z.to_nat limit) pieces else pieces in
               Some (VList (map enc16 pieces))
           end
       end
